@@ -92,6 +92,23 @@ func (fc *FuncCtx) evalCall(st *State, call *ast.CallExpr) []Term {
 		return rs
 	}
 	key := fn.FullName()
+	if key == "(*sync.Pool).Get" || key == "(*sync.Pool).Put" {
+		if oi := fc.w.PoolInvs[fc.globalKey(recvExpr)]; oi != nil {
+			fc.eval(st, recvExpr)
+			if key == "(*sync.Pool).Get" {
+				r := fc.fresh("pool_get", sig.Results().At(0).Type())
+				fc.assume(st, fc.objInvTerm(st, oi, r, call))
+				return []Term{r}
+			}
+			v := fc.evalAs(st, call.Args[0], sig.Params().At(0).Type())
+			fc.oblige(st, "pool.inv", "", fc.objInvTerm(st, oi, v, call), call, "value put into "+exprStr(recvExpr)+" satisfies the pool invariant: "+oi.Clause.Text)
+			return nil
+		}
+	}
+	if spec, ok := fc.w.Intrinsics[key]; ok {
+		fc.usedContracts["intrinsic:"+key] = true
+		return fc.evalIntrinsic(st, call, fn, spec)
+	}
 	c := fc.w.Contracts[key]
 	if c == nil {
 		// interface method: look for a contract on the interface method name
@@ -573,7 +590,11 @@ func (fc *FuncCtx) evalConversion(st *State, call *ast.CallExpr, target types.Ty
 	src := v.T
 	switch {
 	case isInteger(target) && isInteger(src):
-		return Term{S: fc.convInt(v.S, src, target), T: target}
+		r := Term{S: fc.convInt(v.S, src, target), T: target}
+		if r.S == v.S {
+			r.Bits, r.Low = v.Bits, v.Low
+		}
+		return r
 	case isInteger(target) && isFloat(src), isFloat(target):
 		return fc.fresh("conv", target)
 	case isString(target) && isString(src):
@@ -797,7 +818,7 @@ func (fc *FuncCtx) evalAppend(st *State, call *ast.CallExpr) Term {
 		} else {
 			fc.assume(st, "(forall (("+q+" Int)) (=> (not (and (<= (+ "+off+" "+ln+") "+q+") (< "+q+" (+ "+off+" "+nlen+")))) (= (select "+na.S+" "+q+") "+body+")))")
 		}
-		fc.allocCheck(st, Term{S: oln, T: tInt}, sl.Elem(), call)
+		// copying an existing slice: its size is memory that already exists, not a wire field
 		return fc.reg().mkSlice(t, na.S, off, nlen, ncap.S)
 	}
 	n := len(call.Args) - 1
